@@ -449,10 +449,12 @@ func serveStatus(wrt http.ResponseWriter, req *http.Request) {
 	}
 	// Sessions.
 	globals.sessionStore.Range(func(sid string, s *Session) bool {
+		s.subsLock.RLock()
 		keys := make([]string, 0, len(s.subs))
 		for tn := range s.subs {
 			keys = append(keys, tn)
 		}
+		s.subsLock.RUnlock()
 		sort.Strings(keys)
 		var clnode string
 		if s.clnode != nil {
